@@ -29,9 +29,9 @@ func TestMain(m *testing.M) {
 func rapidSetup(checks int, salt int) {
 	_ = flag.Set("rapid.checks", fmt.Sprint(checks))
 	_ = flag.Set("rapid.seed", fmt.Sprint(env.RapidSeed(salt)))
-	shrink := 45 * time.Second
+	shrink := 8 * time.Second
 	if env.Thorough() {
-		shrink = 5 * time.Minute
+		shrink = 30 * time.Second
 	}
 	_ = flag.Set("rapid.shrinktime", shrink.String())
 	_ = os.RemoveAll("testdata/rapid")
@@ -135,8 +135,8 @@ func replayKnown(t *testing.T, id string) {
 
 func oneLine(s string) string {
 	s = strings.ReplaceAll(s, "\n", " | ")
-	if len(s) > 500 {
-		s = s[:500]
+	if len(s) > 2500 {
+		s = s[:2500]
 	}
 	return s
 }
